@@ -1282,6 +1282,7 @@ func (h *hmapType) enumerateWith(fi *core.FuncInfo, cl *hmapClassifier, mode str
 		MaxInline: 3,
 		Classify: cl.classify,
 		Cond:     cl.condEvent,
+		Invariant: func(cj ast.Expr, loop *ast.ForStmt) bool { return h.fieldsInvariant(fi, cj, loop) },
 		Fold: func(c ast.Expr) (bool, bool) {
 			if mode != "" || len(preset) > 0 {
 				if cv := modeConst(c, 0); cv != nil && cv.Kind() == constant.Bool {
@@ -2165,8 +2166,15 @@ func (h *hmapType) checkRehash() {
 				if len(v.Lhs) == 1 && len(v.Rhs) == 1 {
 					switch cl.norm(v.Lhs[0]) {
 					case "threshold":
-						thr = cl.norm(v.Rhs[0])
-						if mentionsNewCap(v.Rhs[0]) && strings.Contains(thr, "loadFactor") {
+						rhs := v.Rhs[0]
+						// thresholdOf(newCapacity, this.loadFactor): judged by what the helper returns
+						if call, ok := ast.Unparen(rhs).(*ast.CallExpr); ok {
+							if res := helperResults(h.p, info, call); len(res) == 1 {
+								rhs = res[0]
+							}
+						}
+						thr = cl.norm(rhs)
+						if mentionsNewCap(rhs) && strings.Contains(thr, "loadFactor") {
 							thrOK = true
 						}
 					case "table":
@@ -3456,4 +3464,98 @@ func (h *hmapType) checkTableInstall() {
 			fi.Obj.Name()+" installs another bucket array without moving the stored entries into it and without resetting the count: every entry stored so far becomes unreachable by key")
 	}
 	_ = n
+}
+
+// fieldsInvariant: the conjunct compares receiver fields, locals and constants only (no calls), and
+// none of the fields it reads is assigned in the loop or in a same-receiver method the loop calls
+// (transitively): `max > 0` beside `count >= max` in an eviction loop.
+func (h *hmapType) fieldsInvariant(fi *core.FuncInfo, cj ast.Expr, loop *ast.ForStmt) bool {
+	info := fi.Pkg.TypesInfo
+	rn := recvName(fi)
+	fields := map[string]bool{}
+	pure := true
+	ast.Inspect(cj, func(n ast.Node) bool {
+		switch v := n.(type) {
+		case *ast.CallExpr:
+			if tv, ok := info.Types[v.Fun]; !ok || !tv.IsType() {
+				pure = false
+			}
+		case *ast.SelectorExpr:
+			if id, ok := ast.Unparen(v.X).(*ast.Ident); ok && id.Name == rn {
+				fields[v.Sel.Name] = true
+				return false
+			}
+			pure = false
+		case *ast.Ident:
+			if lv, ok := info.ObjectOf(v).(*types.Var); ok && !lv.IsField() && v.Name != rn {
+				// a local: must not be assigned in the loop
+				assigned := false
+				ast.Inspect(loop, func(m ast.Node) bool {
+					if as, ok := m.(*ast.AssignStmt); ok && m != loop.Init {
+						for _, l := range as.Lhs {
+							if lid, ok := ast.Unparen(l).(*ast.Ident); ok && info.ObjectOf(lid) == lv {
+								assigned = true
+							}
+						}
+					}
+					return true
+				})
+				if assigned {
+					pure = false
+				}
+			}
+		}
+		return true
+	})
+	if !pure || len(fields) == 0 {
+		return false
+	}
+	seen := map[*core.FuncInfo]bool{}
+	writes := false
+	var scan func(body ast.Node, f *core.FuncInfo, depth int)
+	scan = func(body ast.Node, f *core.FuncInfo, depth int) {
+		finfo := f.Pkg.TypesInfo
+		frn := recvName(f)
+		ast.Inspect(body, func(n ast.Node) bool {
+			switch v := n.(type) {
+			case *ast.AssignStmt:
+				for _, l := range v.Lhs {
+					if sel, ok := ast.Unparen(l).(*ast.SelectorExpr); ok && fields[sel.Sel.Name] {
+						if id, ok := ast.Unparen(sel.X).(*ast.Ident); ok && id.Name == frn {
+							writes = true
+						}
+					}
+				}
+			case *ast.IncDecStmt:
+				if sel, ok := ast.Unparen(v.X).(*ast.SelectorExpr); ok && fields[sel.Sel.Name] {
+					if id, ok := ast.Unparen(sel.X).(*ast.Ident); ok && id.Name == frn {
+						writes = true
+					}
+				}
+			case *ast.UnaryExpr:
+				if v.Op == token.AND {
+					if sel, ok := ast.Unparen(v.X).(*ast.SelectorExpr); ok && fields[sel.Sel.Name] {
+						writes = true
+					}
+				}
+			case *ast.CallExpr:
+				if depth < 4 {
+					if fn := calleeFunc(finfo, v); fn != nil {
+						if cf := h.p.FuncOf(fn); cf != nil && cf.Decl.Body != nil && !seen[cf] {
+							if rt := core.RecvNamed(cf.Obj); rt != nil && rt.Obj() == h.t.Obj() {
+								seen[cf] = true
+								scan(cf.Decl.Body, cf, depth+1)
+							}
+						}
+					}
+				}
+			}
+			return true
+		})
+	}
+	scan(loop.Body, fi, 0)
+	if loop.Post != nil {
+		scan(loop.Post, fi, 0)
+	}
+	return !writes
 }
